@@ -548,3 +548,398 @@ def run_mig(tier, seed):
            "wall_s": round(time.time() - t0, 1), "cached": False}
     json.dump(res, open(done, "w"))
     return res
+
+
+# ------------------------------------------------------------------------------------------ oracles (implementation only)
+INS_RE = re.compile(r"^INSERT INTO (.)(.*)\1 \(version, id\) VALUES \((\d+), '(.*)'\)$", re.S)
+
+
+def backend_key(run):
+    return {"sqlite": "sqlite", "postgres": "pg", "mysql": "mysql"}[run.get("backend", "sqlite")]
+
+
+def mig_stmts(m, key):
+    return [s for a in m["actions"] for s in a[key] if s]
+
+
+def split_txn(log):
+    """-> (user statements that succeeded, version inserts that succeeded [(v, id)], any failed call?)"""
+    user, ins, failed = [], [], False
+    for e in log:
+        if not e["ok"] and e["k"] != "pool_exec":
+            failed = True
+        if e["k"] == "txn_exec" and e["ok"]:
+            m = INS_RE.match(e["sql"])
+            if m:
+                ins.append((int(m.group(3)), m.group(4)))
+            else:
+                user.append(e["sql"])
+    return user, ins, failed
+
+
+def full_state(h, run, base_rows):
+    """the state one sequential run must end in: (rows, catalog) """
+    migs = h["out"]["migs"]
+    maxv = max([r[0] for r in base_rows], default=0)
+    pend = [m for m in migs if m["version"] > maxv]
+    rows = [list(r) for r in base_rows] + [[m["version"], m["id"]] for m in pend]
+    cat = h["out"]["refcats"][len(migs)]["catalog"] if h["out"]["refcats"] else None
+    return pend, rows, cat
+
+
+def legacy_rows(before):
+    return [[r[0], r[1] if before["vt_has_id"] else ""] for r in before["rows"]]
+
+
+def oracle_c09(h, run):
+    """run from version k: only later migrations' statements, in order; second run nothing; same schema as a fresh run;
+    a recorded id that differs from the compiled id is reported"""
+    tags, fails = run.get("tags") or {}, []
+    kind = tags.get("kind")
+    if kind == "exotic":
+        return None
+    insts = run["instances"]
+    key = backend_key(run)
+    if kind == "idconflict":
+        r = insts[0]["result"]
+        if not (r and r["kind"] == "id_mismatch" and r.get("version") == tags.get("conflict_version")):
+            fails.append({"clause": "id-mismatch-reported", "got": r, "recorded": run["before"]["rows"]})
+        return {"ok": not fails, "fails": fails}
+    pend, rows, cat = full_state(h, run, legacy_rows(run["before"]))
+    user, ins, _ = split_txn(insts[0]["log"])
+    if not insts[0]["result"] or insts[0]["result"]["kind"] != "ok":
+        fails.append({"clause": "first-run-ok", "got": insts[0]["result"]})
+    exp_user = [s for m in pend for s in mig_stmts(m, key)]
+    if user != exp_user:
+        fails.append({"clause": "exactly-pending-statements-in-order", "expected": exp_user, "got": user})
+    if ins != [(m["version"], m["id"]) for m in pend]:
+        fails.append({"clause": "one-version-row-each", "expected": [(m["version"], m["id"]) for m in pend], "got": ins})
+    mid = run["mids"][0] if run.get("mids") else run["after"]
+    if mid["rows"] != rows:
+        fails.append({"clause": "versions-recorded", "expected": rows, "got": mid["rows"]})
+    if not run.get("dry") and cat is not None and mid["catalog"] != cat:
+        fails.append({"clause": "same-schema-as-fresh-run", "expected": cat, "got": mid["catalog"]})
+    if len(insts) > 1:
+        u2, i2, _ = split_txn(insts[1]["log"])
+        n_exec2 = sum(1 for e in insts[1]["log"] if e["k"] == "txn_exec")
+        if n_exec2 or not insts[1]["result"] or insts[1]["result"]["kind"] != "ok":
+            fails.append({"clause": "second-run-executes-nothing", "executed": [e["sql"] for e in insts[1]["log"] if e["k"] == "txn_exec"],
+                          "result": insts[1]["result"]})
+        if run["after"]["rows"] != mid["rows"] or run["after"]["catalog"] != mid["catalog"]:
+            fails.append({"clause": "second-run-changes-nothing"})
+    return {"ok": not fails, "fails": fails}
+
+
+def same_but_bookkeeping(a, b):
+    return a["catalog"] == b["catalog"] and [r[0] for r in a["rows"]] == [r[0] for r in b["rows"]]
+
+
+def oracle_c10(h, run):
+    """fault at call j: database unchanged except for the (empty / upgraded) bookkeeping table; re-run completes"""
+    fails = []
+    insts = run["instances"]
+    faults = insts[0].get("faults") or []
+    r0 = insts[0]["result"]
+    mid = run["mids"][0]
+    pend, rows, cat = full_state(h, run, legacy_rows(run["before"]))
+    hit = [j for j in faults if j < len(insts[0]["log"]) and insts[0]["log"][j].get("injected")]
+    if r0 and r0["kind"] == "ok":
+        if [j for j in hit if j != 1]:
+            fails.append({"clause": "injected-failure-not-swallowed", "faults": faults})
+    elif r0 and r0["kind"] == "database_error":
+        if not same_but_bookkeeping(run["before"], mid):
+            fails.append({"clause": "failed-run-changes-nothing", "before": run["before"], "after_failed_run": mid})
+    else:
+        fails.append({"clause": "ok-or-database-error", "got": r0})
+    r1 = insts[1]["result"]
+    if not r1 or r1["kind"] != "ok" or run["after"]["rows"] != rows or (cat is not None and run["after"]["catalog"] != cat):
+        fails.append({"clause": "rerun-reaches-uninterrupted-final-state", "result": r1, "expected_rows": rows, "got_rows": run["after"]["rows"],
+                      "catalog_equal": run["after"]["catalog"] == cat})
+    return {"ok": not fails, "fails": fails}
+
+
+def oracle_crash(h, c):
+    fails = []
+    before, look, rerun = c["prep"]["before"], c["look"]["after"], c["rerun"]
+    fake = {"before": before}
+    pend, rows, cat = full_state(h, fake, legacy_rows(before))
+    complete = look["rows"] == rows and look["catalog"] == cat
+    if not complete and not same_but_bookkeeping(before, look):
+        fails.append({"clause": "killed-run-changes-nothing", "before": before, "after_kill": look})
+    r = rerun["instances"][0]["result"]
+    if not r or r["kind"] != "ok" or rerun["after"]["rows"] != rows or rerun["after"]["catalog"] != cat:
+        fails.append({"clause": "rerun-reaches-uninterrupted-final-state", "result": r, "got_rows": rerun["after"]["rows"]})
+    return {"ok": not fails, "fails": fails}
+
+
+def oracle_c11(h, run):
+    """interleaved instances: nothing committed twice, losers get Err, after the retry the sequential result"""
+    fails = []
+    insts = run["instances"]
+    pend, rows, cat = full_state(h, run, legacy_rows(run["before"]))
+    writers = 0
+    for pid, i in enumerate(insts):
+        r = i["result"]
+        if not r or r["kind"] not in ("ok", "database_error"):
+            fails.append({"clause": "each-instance-ok-or-err", "pid": pid, "got": r})
+            continue
+        user, ins, failed = split_txn(i["log"])
+        committed = any(e["k"] == "commit" and e["ok"] for e in i["log"])
+        if committed and (user or ins):
+            writers += 1
+            if ins != [(m["version"], m["id"]) for m in pend]:
+                fails.append({"clause": "a-committer-applied-exactly-the-pending-migrations", "pid": pid, "got": ins})
+        if (r["kind"] == "ok") != (committed and not failed):
+            fails.append({"clause": "result-matches-commit", "pid": pid, "result": r, "committed": committed})
+    if writers > 1:
+        fails.append({"clause": "at-most-one-writer-commits", "writers": writers})
+    if run["after"]["rows"] != rows or run["after"]["catalog"] != cat:
+        fails.append({"clause": "retry-converges-to-sequential-result", "expected_rows": rows, "got_rows": run["after"]["rows"],
+                      "catalog_equal": run["after"]["catalog"] == cat})
+    if len({r[0] for r in run["after"]["rows"]}) != len(run["after"]["rows"]):
+        fails.append({"clause": "every-version-recorded-once"})
+    return {"ok": not fails, "fails": fails}
+
+
+# ------------------------------------------------------------------------------------------ known findings
+def known_entries(prop):
+    ks = [k for k in vflib.load_known() if k.get("property") == prop]
+    for f in sorted(glob.glob(os.path.join(ROOT, "props", "known_%s*.proposed.json" % prop))):
+        for k in json.load(open(f)).get("findings", []):
+            if k.get("property") == prop and k["id"] not in {x["id"] for x in ks}:
+                k = dict(k)
+                k["proposed"] = True
+                ks.append(k)
+    return ks
+
+
+# classifier name (Gallina boolean, evaluated inside Coq by `flag_code` in every shard) -> decoded flag
+CLASSIFIERS = {"id_conflict": lambda hyp: bool(hyp and hyp.get("id_conflict")),
+               "versions_beyond_i32": lambda hyp: bool(hyp) and not hyp.get("versions_i32")}
+
+FAMILY = {"C09": ("c09",), "C10": ("c10",), "C11": ("c11",)}
+RULES = {
+    "C09": "every history (corpus/mig + generated in thorough) x every start version k in 0..n x 4 option sets (plain / verbose / version_table / both), 2 consecutive starts each; legacy bookkeeping layout; fake PostgreSQL/MySQL backends; pre-seeded foreign ids and out-of-range versions. non-trivial = distinct (history, options, prepared database) with >= 1 pending migration",
+    "C10": "fault injected at connection call j (quick: every j for the fresh database of each history + 2 random j per (k, options); thorough: every j everywhere), each followed by a clean re-run; process killed (abort) before call j and database re-opened by a new process. non-trivial = distinct (history, options, k, j) where the fault/kill hits inside the transaction (j >= 3)",
+    "C11": "2 or 3 instances on one SQLite file (busy_timeout 0) stepped by the scheduler, then one late retry instance; systematic + seeded random schedules (thorough: every interleaving of the transaction parts for <= 7 calls, every interleaving of the parts outside the transaction). non-trivial = distinct (history, options, k, effective schedule) in which >= 2 instances issued a call while another was unfinished",
+}
+
+
+def case_fingerprint(ds, run):
+    return hashlib.sha1(json.dumps([ds["history"], run.get("variant"), run.get("backend"), run.get("init"), run.get("schedule"),
+                                    [i.get("faults") for i in run.get("instances", [])], ds["tags"].get("j")], sort_keys=True, default=str).encode()).hexdigest()
+
+
+def nontrivial(prop, ds, run, h):
+    t = ds["tags"]
+    if prop == "C09":
+        maxv = max([r[0] for r in run["before"]["rows"]], default=0)
+        return any(v > maxv for v in h["versions"])
+    if prop == "C10":
+        return t.get("j", 0) >= 3
+    sched = run.get("schedule", [])
+    return len({p for p in sched if p < t.get("ninst", 2)}) >= 2 and any(a != b for a, b in zip(sched, sched[1:]))
+
+
+def sample_of(ds, run):
+    return {"history": ds["history"], "run": ds["run"], "tags": ds["tags"], "init": run.get("init"), "schedule": run.get("schedule"),
+            "results": [i.get("result", {}) and i["result"].get("kind") for i in run.get("instances", [])],
+            "calls": [[(e["k"], e["ok"], e["sql"][:80]) for e in i["log"]] for i in run.get("instances", [])][:2],
+            "rows_after": run.get("after", {}).get("rows")}
+
+
+def history_files(hdir):
+    out = {}
+    for f in sorted(glob.glob(os.path.join(hdir, "**", "*"), recursive=True)):
+        if os.path.isfile(f) and (f.endswith(".json") or f.endswith(".yaml") or f.endswith(".yml")):
+            out[os.path.relpath(f, hdir)] = open(f).read()
+    return out
+
+
+def history_dir_of(name, tier, seed):
+    for d in history_dirs_existing(tier, seed):
+        if os.path.basename(d) == name:
+            return d
+    return None
+
+
+def history_dirs_existing(tier, seed):
+    dirs = sorted(d for d in glob.glob(os.path.join(CORPUS, "*")) if os.path.isdir(os.path.join(d, "migrations")))
+    dirs += sorted(glob.glob(os.path.join(MIG, "gen", str(seed), "g*")))
+    return dirs
+
+
+def model_view_of(res, ds):
+    f = os.path.join(res["dir"], "view_%d_%d.v" % (ds["shard"], ds["local"]))
+    open(f, "w").write("From VV.MIG Require Import Corr.\nRequire cases_mig_%03d.\nEval vm_compute in option_map model_view (nth_error cases_mig_%03d.cases %d).\n"
+                       % (ds["shard"], ds["shard"], ds["local"]))
+    rc, out, _ = vflib.sh(["timeout", "600", "coqc", "-noglob"] + vflib.q_flags("mig") + ["-Q", res["dir"], "Top", f], cwd=res["dir"], timeout=660)
+    return out[-6000:]
+
+
+SUBCHECK = {1: "result kinds", 2: "call logs", 3: "version table", 4: "catalog", 5: "model not finished after the schedule",
+            6: "sequential run: results/logs", 7: "sequential run: database after each instance", 8: "crash: version table", 9: "crash: catalog"}
+
+
+def mig_check(prop, tier, seed, assumptions):
+    chk = vflib.Check(prop, tier, seed)
+    chk.assumptions = assumptions
+    chk.cov["trusted_base"] = vflib.TRUSTED_COMMON + [
+        "hand-written tie (K-mig): harness_mig/migrt (proxy connection with inherent methods of the same names as sea-orm's ConnectionTrait/TransactionTrait, scheduler, fault injection, database preparation and observation, re-derivation of the baked-in SQL lists with build_plan_queries/apply_action/with_prefix), checks/migrun.py (Gallina printer, oracles)",
+        "modelled, not verified: SQLite beyond the lock rules of Model/Sqlite.v (rollback-journal mode, busy_timeout 0, no cache spill to EXCLUSIVE), user statements are opaque and assumed to succeed unless a fault is injected; sqlx/sea-orm pooling (one connection per instance), tokio scheduling replaced by the harness scheduler",
+        "engine catalogs come from the real engine: the model only predicts WHICH statement list is committed; the catalog of a statement list is read from libsqlite3 by direct execution",
+    ]
+    vflib.proof_stage(chk, "mig", prop)
+    res = run_mig(tier, seed)
+    if "build_error" in res or "coq_error" in res:
+        rp = vflib.write_replay(prop, "correspondence:build", {"log": res.get("build_error") or res.get("coq_error")})
+        chk.violation(rp, True)
+        return chk.finish()
+    hist = {h["name"]: h for h in res["histories"]}
+    rejected = []
+    for h in res["histories"]:
+        if h.get("error"):
+            if h["name"].startswith("g"):
+                rejected.append({"history": h["name"], "stage": h["error"].get("stage")})
+            else:
+                rp = vflib.write_replay(prop, "correspondence:K-mig-harness", {"history": h["name"], "error": h["error"], "tier": tier, "seed": seed})
+                chk.violation(rp, True)
+    runs_by = {}
+    for h in res["histories"]:
+        for r in h.get("runs", []):
+            runs_by[(h["name"], r["name"])] = r
+        for c in h.get("crashes", []):
+            runs_by[(h["name"], "crash_k%d_j%d" % (c["k"], c["j"]))] = c
+    mine = [ds for ds in res["cases"] if ds["tags"].get("family") in FAMILY[prop]]
+    base = [ds for ds in res["cases"] if ds["tags"].get("family") == "c09" and ds["tags"].get("kind") == "base"]
+    corr_cases = mine if prop == "C09" else mine + base
+    chk.cov["evaluations"] = len(mine)
+    chk.cov["rule"] = RULES[prop]
+    chk.cov["cached_run"] = res.get("cached", False)
+    chk.cov["traces_validated_against_impl"] = len(corr_cases)
+    # ---- correspondence
+    bad = [ds for ds in corr_cases if ds["mismatch"]]
+    chk.cov["correspondences"] = {"K-mig": {"cases": len(corr_cases), "mismatches": len(bad),
+                                            "compared": "per-instance call log (kind, SQL text, success), result kind, version-table rows, final catalog; inside Coq"}}
+    # ---- oracle
+    known = [k for k in known_entries(prop) if k.get("status") == "open"]
+    failing, seen, nontriv, samples, dist = [], set(), set(), [], {}
+    for ds in mine:
+        h = hist[ds["history"]]
+        run = runs_by[(ds["history"], ds["run"])]
+        kind = ds["tags"].get("kind")
+        dist[kind] = dist.get(kind, 0) + 1
+        if kind == "crash":
+            o = oracle_crash(h, run)
+            fp = hashlib.sha1(json.dumps([ds["history"], ds["run"]]).encode()).hexdigest()
+            if ds["tags"].get("j", 0) >= 3:
+                nontriv.add(fp)
+        else:
+            o = {"C09": oracle_c09, "C10": oracle_c10, "C11": oracle_c11}[prop](h, run)
+            fp = case_fingerprint(ds, run)
+            if nontrivial(prop, ds, run, h):
+                nontriv.add(fp)
+            if len(samples) < 3 and fp not in seen and nontrivial(prop, ds, run, h) and (len(samples) == 0 or ds["history"] != samples[-1]["history"]):
+                samples.append(sample_of(ds, run))
+        seen.add(fp)
+        if o is not None and not o["ok"]:
+            failing.append((ds, run, o))
+    chk.cov["distinct_nontrivial"] = len(nontriv)
+    chk.cov["samples"] = samples or [{"history": ds["history"], "run": ds["run"]} for ds in mine[:1]]
+    chk.cov["distribution"] = {"kinds": dist, "histories": {h["name"]: {"migrations": h["n_migs"], "build_s": h.get("build_s"), "binary_cached": h.get("build_cached")}
+                                                               for h in res["histories"]}, "rejected_generated_histories": rejected,
+                               "kmig_wall_s": res.get("wall_s")}
+    hyp_all = sum(1 for ds in mine if ds.get("hyp") and ds["hyp"]["ascending"] and ds["hyp"]["versions_i32"] and ds["hyp"]["at_version"])
+    covered, unexplained = {}, []
+    for (ds, run, o) in failing:
+        hit = None
+        for k in known:
+            f = CLASSIFIERS.get(k.get("classifier"))
+            if f and f(ds.get("hyp")):
+                hit = k
+                break
+        if hit:
+            covered[hit["id"]] = covered.get(hit["id"], 0) + 1
+        else:
+            unexplained.append((ds, run, o))
+    for k in known:
+        wit = k.get("witness", "")
+        wname = os.path.basename(os.path.dirname(wit)) if wit.endswith(".json") else os.path.basename(wit.rstrip("/"))
+        still = [1 for (ds, run, o) in failing if ds["history"] == wname]
+        if covered.get(k["id"]) or still:
+            chk.known_finding(k["id"], k["what"])
+        else:
+            chk.notes.append("NOTE stale known finding %s: its witness no longer fails" % k["id"])
+    chk.cov["theorem_coverage"] = {"cases_under_all_hypotheses(ascending, versions_i32, at_version)": hyp_all, "cases": len(mine),
+                                   "oracle_failures": len(failing), "classified_known": covered, "unexplained": len(unexplained)}
+    for (ds, run, o) in unexplained[:5]:
+        hd = history_dir_of(ds["history"], tier, seed)
+        rp = vflib.write_replay(prop, "oracle", {"tier": tier, "seed": seed, "history": ds["history"], "history_files": history_files(hd) if hd else None,
+                                                 "run": {k: v for k, v in run.items() if k in ("name", "variant", "backend", "init", "schedule", "tags", "k", "j")},
+                                                 "faults": [i.get("faults") for i in run.get("instances", [])] if isinstance(run.get("instances"), list) else None,
+                                                 "oracle": o, "hypotheses": ds.get("hyp"), "replay_cmd": "./vf replay %s <this file>" % prop})
+        chk.violation(rp)
+    if (bad or res["shard_errors"]) and not unexplained:
+        payload = {"tier": tier, "seed": seed, "broken": "K-mig", "shard_errors": res["shard_errors"][:2]}
+        if bad:
+            ds = bad[0]
+            run = runs_by[(ds["history"], ds["run"])]
+            hd = history_dir_of(ds["history"], tier, seed)
+            payload.update({"first_differing_case": {"history": ds["history"], "run": ds["run"], "tags": ds["tags"]},
+                            "subchecks": [SUBCHECK.get(x, str(x)) for x in ds["mismatch"]],
+                            "history_files": history_files(hd) if hd else None, "implementation": run, "model": model_view_of(res, ds),
+                            "differing_cases": len(bad)})
+        rp = vflib.write_replay(prop, "correspondence:K-mig", payload)
+        chk.violation(rp, True)
+    return chk.finish()
+
+
+def mig_replay(prop, path):
+    """Re-run the stored run on the real generated code (history rebuilt from the replay file) and re-apply the oracle."""
+    rp = json.load(open(path))
+    files = rp.get("history_files")
+    if not files:
+        print("replay file carries no input (%s)" % rp.get("kind"))
+        print(json.dumps(rp, indent=1)[:3000])
+        print("VIOLATION property=%s replay=%s no-failing-input-found" % (prop, path))
+        return 1
+    hd = os.path.join(MIG, "replay", hashlib.sha1(json.dumps(files, sort_keys=True).encode()).hexdigest()[:12], rp.get("history", "h"))
+    shutil.rmtree(hd, ignore_errors=True)
+    for rel, txt in files.items():
+        os.makedirs(os.path.dirname(os.path.join(hd, rel)) or hd, exist_ok=True)
+        open(os.path.join(hd, rel), "w").write(txt)
+    os.makedirs(os.path.join(hd, "models"), exist_ok=True)
+    vflib.build_harness("migrt", ws="harness_mig")
+    binp, log, dt, cached, key = build_case(hd)
+    if binp is None:
+        print("case crate does not compile:\n" + log[-2000:])
+        print("VIOLATION property=%s replay=%s" % (prop, path))
+        return 1
+    h = read_history(hd)
+    src = rp.get("run") or (rp.get("implementation") or {})
+    tags = src.get("tags") or {}
+    wd = os.path.join(MIG, "replay", "work")
+    shutil.rmtree(wd, ignore_errors=True)
+    if tags.get("kind") == "crash" or "prep" in src:
+        print("crash replays: re-run `./vf check %s` (the kill needs three processes); input: k=%s j=%s" % (prop, src.get("k"), src.get("j")))
+        return 1
+    faults = rp.get("faults") or [i.get("faults") for i in (rp.get("implementation") or {}).get("instances", [])] or [[]]
+    spec = {"name": "replay", "variant": src.get("variant", 0), "backend": src.get("backend", "sqlite"), "init": {k: v for k, v in (src.get("init") or {}).items() if k in ("k", "vt", "rows")},
+            "instances": [{"faults": f or []} for f in faults], "schedule": src.get("schedule") or [], "tags": tags}
+    if tags.get("family") == "c11":
+        spec["late"] = [tags.get("ninst", 2)]
+    else:
+        spec["mode"] = "sequential"
+    out, rc, err = run_bin(binp, {"work": wd, "project": hd, "runs": [spec]}, "replay")
+    if out is None or "harness_error" in out["runs"][0]:
+        print("harness failed: %s %s" % (err, out and out["runs"][0].get("harness_error")))
+        return 1
+    hh = {"out": {"migs": out["migs"], "refcats": out["refcats"]}, "versions": h["versions"]}
+    run = out["runs"][0]
+    o = {"C09": oracle_c09, "C10": oracle_c10, "C11": oracle_c11}[prop](hh, run)
+    print(json.dumps({"results": [i["result"] for i in run["instances"]], "oracle": o}, indent=1)[:4000])
+    if o is not None and not o["ok"]:
+        print("VIOLATION property=%s replay=%s" % (prop, path))
+        return 1
+    print("replay: the oracle holds on this input now")
+    return 0
